@@ -157,6 +157,29 @@ def processRulesAfter (sort : List Rule → List Rule) (p : Proc) (history : Lis
     (rules : List Rule) : List Rule × List Rule :=
   processRules sort (p.run history).flag rules
 
+/-- Validator used where the order among equal priorities is free (the correspondence then
+    *checks* an observed run instead of predicting it): `exec` = names of the started rules in
+    order, `errs` = names in the error report, for the triggered `rules` (name = position).
+    Accepts iff the run is `processRules` for *some* admissible sort: no rule twice, priorities
+    never decrease, no rule left out has a smaller priority than a started one; without the flag
+    nothing is left out; with it no started rule but the last fails and the sequence goes on to
+    the end unless the last one fails; the report holds exactly the failing started rules. -/
+def validRun (flag : Bool) (rules : List Rule) (exec errs : List Nat) : Bool :=
+  let execR := exec.filterMap fun i => rules[i]?
+  let rest := rules.filter fun r => !exec.contains r.name
+  exec.all (· < rules.length) && exec.eraseDups.length == exec.length &&
+  (execR.zip execR.tail).all (fun p => decide (p.1.prio ≤ p.2.prio)) &&
+  rest.all (fun x => execR.all fun e => decide (e.prio ≤ x.prio)) &&
+  (if flag then
+     execR.dropLast.all (fun r => !r.fails) &&
+     (match execR.getLast? with
+      | some l => if l.fails then true else rest.isEmpty
+      | none => rest.isEmpty)
+   else rest.isEmpty) &&
+  errs.eraseDups.length == errs.length &&
+  errs.all (fun i => (execR.any fun r => r.name == i && r.fails)) &&
+  (execR.filter (·.fails)).all (fun r => errs.contains r.name)
+
 /-- specification function: the prefix up to and including the first failing rule -/
 def uptoFirstFail : List Rule → List Rule
   | [] => []
